@@ -40,6 +40,7 @@ OBLIGATIONS = [
     "Grog.C17.parsePatterns_spec",
     "Grog.C17.parsePatterns_matches_iff",
     "Grog.C17.patternFromLabel_matches_iff",
+    "Grog.C17.canBeShortened_iff",
 ]
 ASSUMPTIONS = [
     "errors of the Go parsers are compared only as ok / not ok",
@@ -354,13 +355,21 @@ def pattern_sets(ctx, bad):
     curs = ["", "a", "x/y", "a/b"]
     reqs = [{"op": "patterns.parse", "cur": cur, "ss": ss, "uni": UNI} for ss in sets for cur in (curs if any(not x.startswith("//") for x in ss) else curs[:1])]
     lab_reqs = [{"op": "pattern.fromlabel", "pkg": p_, "name": n_, "uni": UNI} for p_, n_ in labs[::7]]
+    # CanBeShortened: every label of the universe plus names that are proper suffixes / prefixes / case variants of the last package element
+    short_cases = list(labs)
+    for p_ in UNI["pkgs"] + ["tools/alint", "tools/lint", "a/bb", "x/yy/zz", "lint", "a/b/", "/a"]:
+        last = p_.split("/")[-1]
+        for n_ in {last, last[1:], last[:-1], "x" + last, last + "x", last.upper(), p_.replace("/", "_"), p_}:
+            short_cases.append((p_, n_))
+    short_reqs = [{"op": "label.short", "pkg": p_, "name": n_} for p_, n_ in dict.fromkeys(short_cases)]
+    lab_reqs = lab_reqs + short_reqs
     out = ctx.impl(reqs + lab_reqs)
     if out is None:
         return 0
     mod = ctx.model(reqs + lab_reqs)
     for r, x, y in zip(reqs + lab_reqs, out, mod):
         if x != y:
-            bad.append((dict(r, s=" ".join(r.get("ss", [r.get("pkg", "") + ":" + r.get("name", "")]))), x, y))
+            bad.append((dict(r, s=" ".join(r.get("ss", [r.get("pkg", "") + ":" + r.get("name", "")])), cur=r.get("cur", "")), x, y))
     ctx.coverage["evaluations"] += len(reqs) + len(lab_reqs)
     ctx.coverage["traces_validated_against_impl"] += len(reqs) + len(lab_reqs)
     fails = 0
@@ -389,6 +398,15 @@ def pattern_sets(ctx, bad):
                           {"kind": "oracle", "oracle": "pattern set = union of its patterns (reference matcher)", "request": strip(r), "impl": x,
                            "label": labs[i], "expected": exp[i]}, signature="pattern-set-differs-from-union")
     for r, x in zip(lab_reqs, out[len(reqs):]):
+        if r["op"] == "label.short":
+            exp_short = r["name"] == r["pkg"].split("/")[-1]
+            if isinstance(x, dict) and "short" in x and x["short"] != exp_short:
+                fails += 1
+                ctx.violation("CanBeShortened disagrees with the documented shorthand (//a/b means //a/b:b, nothing else): the shorthand key of a "
+                              "dependency (`$(bin //pkg)`, `$(output //pkg)`) would refer to a different target",
+                              {"kind": "oracle", "oracle": "shorthand applies iff name = last package element", "request": r, "impl": x, "expected": exp_short},
+                              signature="can-be-shortened-differs")
+            continue
         exp = [(p_, n_) == (r["pkg"], r["name"]) for p_, n_ in labs]
         if r["name"] in ("all", "...") or not isinstance(x, dict) or "m" not in x:
             continue
@@ -440,7 +458,7 @@ def cli_patterns(ctx):
         return p.returncode, p.stdout
 
     fails = 0
-    sets = [["//...:lib"], ["//...:a"], ["//a/...:y", "//...:z"], ["//...:b", "//x/y:a"], [":a"], ["//a/..."], ["//..."], ["//a:all", "//...:y"], []]
+    sets = [[":..."], ["//a:..."], ["//a:all"], ["//:..."], ["//a/b:...", "//x/y:z"], ["//...:lib"], ["//...:a"], ["//a/...:y", "//...:z"], ["//...:b", "//x/y:a"], [":a"], ["//a/..."], ["//..."], ["//a:all", "//...:y"], []]
     for _ in range(10 if ctx.tier == "quick" else 60):
         sets.append([rng.choice(SET_POOL) for _ in range(rng.randint(1, 3))])
     n = 0
